@@ -9,6 +9,7 @@
 import OpmVerif.Proofs.EclBin
 import OpmVerif.Proofs.EclFmt
 import OpmVerif.Proofs.EclFmtFile
+import OpmVerif.Proofs.FmtReal
 
 namespace OpmVerif.Props.C07
 open OpmVerif.Ecl
@@ -94,8 +95,56 @@ theorem formatted_header_roundtrip (name : List Char) (n : Nat) (t : ArrType) (h
       ((EclFmt.fmtHeader name n t ++ rest).dropWhile (· ≠ '\n')).drop 1 = rest :=
   EclFmt.header_roundtrip name n t hname hn ht rest
 
+/-- Formatted DOUB, writer side: on the text `snprintf("%19.13E")` prints for a finite
+non-zero value — sign, `d0.d1…d13`, `E`, exponent of two or three digits — the string
+`make_doub_string_ecl` builds with its `substr`/`stoi` arithmetic is `[-]0.d0d1…d13` followed by
+`D±xx` when the new exponent has two digits and by `±xxx` (no letter) when it has three. -/
+theorem formatted_doub_string_of_snprintf (s : FmtReal.Sci) (h : FmtReal.SciOk 13 s) :
+    FmtReal.makeDoubEcl s.neg (FmtReal.sciText s) = some (FmtReal.eclDoub s) :=
+  FmtReal.makeDoubEcl_sciText s h
+
+/-- … and the REAL one (`%10.7E`, always with the letter `E`). -/
+theorem formatted_real_string_of_snprintf (s : FmtReal.Sci) (h : FmtReal.SciOk 7 s) (h2 : s.exp.natAbs < 99) :
+    FmtReal.makeRealEcl s.neg (FmtReal.sciText s) = some (FmtReal.eclReal s) :=
+  FmtReal.makeRealEcl_sciText s h h2
+
+/-- The DOUB string always fits its 23-character column with at least two leading blanks and
+contains no blank: the field is one token for the reader and the seek arithmetic applies. -/
+theorem formatted_doub_field_shape (s : FmtReal.Sci) (h : FmtReal.SciOk 13 s) :
+    EclFmt.GoodField (FmtReal.doubField (FmtReal.eclDoub s)) ∧
+      EclFmt.dropSp (FmtReal.doubField (FmtReal.eclDoub s)) = FmtReal.eclDoub s ∧
+      (FmtReal.doubField (FmtReal.eclDoub s)).length = Gen.EclIO.columnWidthDoub :=
+  FmtReal.doubField_good s h
+
+/-- **Formatted DOUB to printed precision**: every element of a formatted DOUB array (ECL
+flavour, any length, any position in a line or block, last element in front of the next header
+or of the end of the file) reaches `strtod` as exactly the decimal number `snprintf` printed —
+`±d0d1…d13·10^(e-13)` — after the reader's `D`→`E` rewriting or, for three-digit exponents,
+its insertion of the missing `E`.  What remains outside the theorem is libc: that `snprintf`
+prints the 14-digit rounding of the value and `strtod` rounds correctly (the latter is modelled
+exactly in `Model/Strtod.lean` and compared bit for bit). -/
+theorem formatted_doub_value_printed_precision (scis : List FmtReal.Sci) (h : ∀ s ∈ scis, FmtReal.SciOk 13 s)
+    (tail : List Char) (ht : FmtReal.PlainExtra ('\n' :: EclFmt.tokOf tail)) :
+    ∃ toks, EclFmt.parseData .doub scis.length
+        (EclFmt.numericBody .doub (scis.map fun s => FmtReal.doubField (FmtReal.eclDoub s)) ++ tail) =
+          some (.toks toks) ∧
+      toks.map FmtReal.tokenNumber = scis.map FmtReal.sciNumber :=
+  FmtReal.doub_array_numbers scis h tail ht
+
 /-! Non-vacuity: a concrete well-formed two-array file meets the hypotheses and
 exercises the block loop. -/
+
+def sciA : FmtReal.Sci := { neg := true, digits := "12345678901234".toList, exp := 100 }
+def sciB : FmtReal.Sci := { neg := false, digits := "99999999999999".toList, exp := -5 }
+
+example : FmtReal.SciOk 13 sciA ∧ FmtReal.SciOk 13 sciB :=
+  ⟨⟨by decide, by decide, by decide, by decide⟩, ⟨by decide, by decide, by decide, by decide⟩⟩
+
+example : FmtReal.eclDoub sciA = "-0.12345678901234+101".toList ∧
+    FmtReal.eclDoub sciB = "0.99999999999999D-04".toList := by decide +kernel
+
+example : FmtReal.tokenNumber (EclFmt.doubNorm (FmtReal.eclDoub sciA ++ ['\n'])) = FmtReal.sciNumber sciA := by
+  decide +kernel
 
 def fmtSample : List EclFmt.FArr :=
   [ { name := "INTEHEAD".toList, t := .inte, ints := [1, -2147483648, 2147483647, 0, 5, 6, 7] },
